@@ -91,6 +91,10 @@ REF_PROGRAMS = {
     # must not depend on the clean-up having discarded the ended instance
     "stop-request-for-an-ended-flow": "flow helper\n  match E1()\n\nflow watcher\n  match UnhandledEvent(event=\"StopFlow\")\n  send Nobody()\n\nflow main\n  activate watcher\n  start helper\n  match E2()\n  send StopFlow(flow_id=\"helper\")\n  match Never()\n",
     "finish-request-for-an-ended-flow": "flow helper\n  match E1()\n\nflow watcher\n  match UnhandledEvent(event=\"FinishFlow\")\n  send Nobody()\n\nflow main\n  activate watcher\n  start helper\n  match E2()\n  send FinishFlow(flow_id=\"helper\")\n  match Never()\n",
+    # group statements with a scope: a member flow finishes long before the formula becomes true (the clean-up discards
+    # the finished member; the end of the scope still lists it)
+    "group-scope-member-finishes-early": "flow fa\n  match E1()\n\nflow fb\n  match E2()\n\nflow fc\n  match E3()\n\nflow main\n  await (fa and fb) or fc\n  send Echo()\n  match Never()\n",
+    "when-group-member-finishes-early": "flow fa\n  match E1()\n\nflow fb\n  match E2()\n\nflow main\n  when fa and fb\n    send Echo()\n  or when E3()\n    send Echo2()\n  match Never()\n",
     "await-then-finish": "flow c\n  match E1()\n  match E2()\n\nflow d\n  match E1()\n\nflow main\n  start c\n  await d\n  send Echo()\n  match E3()\n  send Echo2()\n  match Never()\n",
 }
 
